@@ -137,8 +137,11 @@ class Runner:
 
     def replay(self, scripts, verbose=False):
         """scripts -> (observed lines, verdicts, stderr)"""
-        self.n += 1
-        p = os.path.join(self.work, "replay-%d-%d.txt" % (os.getpid(), self.n))
+        import threading, itertools
+        if not hasattr(self, "_ctr"):
+            self._ctr = itertools.count()
+        self.n = next(self._ctr)
+        p = os.path.join(self.work, "replay-%d-%d-%d.txt" % (os.getpid(), threading.get_ident() % 100000, self.n))
         with open(p, "w") as f:
             f.write("\n".join(scripts) + "\n")
         env = dict(os.environ)
@@ -295,7 +298,15 @@ def run_corpus(ctx, runner, seen):
     info["scripts"] = len(entries)
     if not entries:
         return info
-    lines, verdicts, _ = runner.replay([e["replay"] for e in entries])
+    # in parallel chunks: a recorded hang costs its whole time limit
+    from concurrent.futures import ThreadPoolExecutor
+    nchunk = max(1, min(verif.NPROC, 12, len(entries)))
+    chunks = [entries[i::nchunk] for i in range(nchunk)]
+    with ThreadPoolExecutor(max_workers=nchunk) as ex:
+        results = list(ex.map(lambda ch: runner.replay([e["replay"] for e in ch]), chunks))
+    entries = [e for ch in chunks for e in ch]
+    lines = [l for r_ in results for l in r_[0]]
+    verdicts = [v for r_ in results for v in r_[1]]
     if len(lines) != len(entries):
         ctx.violation("corpus replay returned %d lines for %d scripts" % (len(lines), len(entries)),
                       {"kind": "tie-broken", "correspondence": "corpus"}, nofail=True)
